@@ -431,6 +431,47 @@ func runC16(c *Ctx) error {
 		}
 	}
 
+	// ---------- (a4) the last handshake message arrives when the connection is given up ----------
+	// A's end receives the peer's final handshake message only at the moment the connection is closed
+	// locally (by whatever watches over a slow setup) or, if nothing does, seven seconds late.  Either
+	// the setup fails and nothing is registered, or it succeeds and the registered link is alive.
+	for rep, n := 0, c.Pick(1, 2); rep < n; rep++ {
+		w := newRWorld()
+		A, err := w.addNode("A", relayStore, nil)
+		if err != nil {
+			return err
+		}
+		B, err := w.addNode("B", relayStore, nil)
+		if err != nil {
+			return err
+		}
+		linkLateFrameA = 3
+		p, lerr := linkNodes(w, A, B, nil, nil)
+		linkLateFrameA = 0
+		time.Sleep(300 * time.Millisecond)
+		l := A.pe.GetLink(B.id.IP)
+		closingRegistered := l != nil && l.IsClosing()
+		for _, x := range A.pe.GetLinks() {
+			closingRegistered = closingRegistered || x.IsClosing()
+		}
+		peerRoute := false
+		for _, e := range A.ro.Table().VerifEntries() {
+			if e.NextHop == B.id.IP {
+				peerRoute = true
+			}
+		}
+		c.Eval()
+		c.Count("event:last-handshake-message-late")
+		c.NonTrivial(fmt.Sprintf("late-last-message/%v", lerr == nil))
+		if closingRegistered || (l == nil && peerRoute) {
+			c.Violate(fmt.Sprintf("after a handshake whose last message arrived when the connection was given up, a closing link is registered (found by peer: %v) or a peer route is left without a link (%v)", l != nil, l == nil && peerRoute), "closing-link-found",
+				map[string]any{"setup_error": fmt.Sprint(lerr), "registered": l != nil, "peer_route": peerRoute})
+		}
+		if p != nil {
+			p.close()
+		}
+	}
+
 	// ---------- (b) real links ----------
 	nWorlds := c.Pick(4, 30)
 	for wi := 0; wi < nWorlds; wi++ {
